@@ -4,7 +4,7 @@ import os
 import re
 
 from vlib import mirutil
-from vlib.facts import walk, peel, place_path, pat_variants, pat_alternatives, CheckError, REPO, uncond_before, sp_before, conditional_ancestors, lca, path_to
+from vlib.facts import diverges, walk, peel, place_path, pat_variants, pat_alternatives, CheckError, REPO, uncond_before, sp_before, conditional_ancestors, lca, path_to
 from vlib.report import RuleResult
 from rules.nopanic import snippet
 
@@ -629,6 +629,14 @@ def miss_loud(F):
                 if m.get("k") == "MethodCall" and m.get("recv") is g:
                     if m["method"] in ("unwrap", "expect"):
                         verdict = "diverges"
+                    elif m["method"] in ("unwrap_or_else", "ok_or_else", "map_or_else") and m.get("args") \
+                            and peel(m["args"][0]).get("k") == "Closure" and diverges(peel(m["args"][0])["body"]):
+                        verdict = "diverges"       # `.unwrap_or_else(|| panic!(..))`: the miss is as loud as with `expect`
+                    elif m["method"] in ("copied", "cloned", "map") and any(
+                            m2.get("k") == "MethodCall" and m2.get("recv") is m and (m2["method"] in ("unwrap", "expect") or (
+                                m2["method"] == "unwrap_or_else" and m2.get("args") and peel(m2["args"][0]).get("k") == "Closure" and diverges(peel(m2["args"][0])["body"])))
+                            for m2 in walk(fn["body"])):
+                        verdict = "diverges"
                     else:
                         verdict = "silent:" + m["method"]
                     break
@@ -727,6 +735,26 @@ def del_guard(F):
                     if n_.get("k") == "If" and (place_path(peel(n_["cond"])) or "").endswith(".deleted") and any(x.get("k") == "Continue" for x in walk(n_["then"])) and "else" not in n_:
                         if uncond_before(fn["body"], n_, c)[0] and lca(fn["body"], n_, c) is not None and not any(a_.get("k") == "Match" and a_.get("src") == "ForLoopDesugar" and not any(y is n_ for y in walk(a_)) for a_, _ in (path_to(fn["body"], c) or []) if isinstance(a_, dict) and any(y is c for y in walk(a_)) and not any(y is n_ for y in walk(a_))):
                             guarded = True
+            if not guarded:
+                # the loop runs over `<collection>.iter().filter(|x| !x.deleted)`
+                for m_ in walk(fn["body"]):
+                    if m_.get("k") == "Match" and m_.get("src") == "ForLoopDesugar" and any(y is c for y in walk(m_)):
+                        for f_ in walk(m_["scrut"]):
+                            if f_.get("k") == "MethodCall" and f_["method"] == "filter" and f_.get("args") and peel(f_["args"][0]).get("k") == "Closure":
+                                b_ = peel(peel(f_["args"][0])["body"])
+                                if b_.get("k") == "Unary" and b_.get("op") == "!" and (place_path(b_["a"]) or "").endswith(".deleted"):
+                                    guarded = True
+            if not guarded:
+                # established by any mix of enclosing tests and earlier guard clauses
+                from vlib.facts import guard_conditions
+                for pol, cd in guard_conditions(fn["body"], c):
+                    if pol in ("pat", "notpat"):
+                        continue
+                    cd_ = peel(cd)
+                    if pol is True and cd_.get("k") == "Unary" and cd_.get("op") == "!" and (place_path(cd_["a"]) or "").endswith(".deleted"):
+                        guarded = True
+                    if pol is False and (place_path(cd_) or "").endswith(".deleted"):
+                        guarded = True
             r.ob(guarded, {"sink": label, "under_not_deleted": guarded})
             if not guarded:
                 r.violate("%s | %s" % (fn["path"], label), F.loc(fn, c), "%ss are emitted without testing `.deleted`: a deleted %s would still appear in the output" % (label, label))
@@ -789,6 +817,20 @@ def tag_emit(F):
                 inj = peel(c["args"][2])
                 k = ty.get("res", {}).get("variant") if ty.get("k") == "Path" else None
                 k2 = inj.get("variant") if inj.get("k") == "Struct" else None
+                if k2 is None and inj.get("k") == "Path" and inj.get("res", {}).get("r") == "local":
+                    # the record is built elsewhere and handed over in a local (`if let Some(probe) = x.as_func_probe(..)`): every
+                    # Injection literal the local can come from must be of a paired kind
+                    from vlib.facts import binding_site
+                    _pt, scr_, _kd = binding_site(fn["body"], inj["res"]["hid"])
+                    kinds_ = {x.get("variant") for x in walk(scr_ or {}) if x.get("k") == "Struct" and (x.get("adt") or "").endswith("Injection") and x.get("variant")}
+                    if not kinds_:
+                        r.undecided("%s: where the record passed to add_injection is built was not found" % fn["path"])
+                        continue
+                    okk = k in PAIR and kinds_ <= PAIR[k]
+                    r.ob(okk, {"fn": fn["path"], "InjectType": k, "Injection": sorted(kinds_)})
+                    if not okk:
+                        r.violate("%s | %s/%s" % (fn["path"], k, "+".join(sorted(kinds_))), F.loc(fn, c), "add_injection files an Injection::%s record under InjectType::%s" % (sorted(kinds_), k))
+                    continue
                 ok = k in PAIR and k2 in PAIR[k]
                 r.ob(ok, {"fn": fn["path"], "InjectType": k, "Injection": k2})
                 if not ok:
